@@ -45,6 +45,13 @@ func (c *Ctx) downwardScan(fs *ast.ForStmt) (top string, ok bool) {
 			if c.objOf(x) == iv {
 				return linSym("i"), true
 			}
+			// the count handed in as a parameter that every caller binds to the count field
+			if fp := c.fieldPath(x); strings.HasSuffix(fp, ".localCount") || strings.HasSuffix(fp, ".blockTos") {
+				if top == "" || top == fp {
+					top = fp
+					return linSym("T"), true
+				}
+			}
 		case *ast.SelectorExpr:
 			fp := c.fieldPath(x)
 			if strings.HasSuffix(fp, ".localCount") || strings.HasSuffix(fp, ".blockTos") {
